@@ -38,6 +38,8 @@ class ReadLog:
         self.observer = 0  # >0 while the oracle itself is reading
         self.unavailable = False
         self.eio_fired = 0
+        self.calls = 0           # storage calls seen (not counting oracle reads)
+        self.fail_at: int | None = None  # the j-th storage call raises EIO (fault F3 by position)
 
     def ok(self) -> None:
         if self.observer:
@@ -54,6 +56,11 @@ class ReadLog:
         return self.by_task.get(task if task is not None else _task(), 0)
 
     def check_available(self, what: str) -> None:
+        if not self.observer:
+            self.calls += 1
+            if self.fail_at is not None and self.calls == self.fail_at:
+                self.eio_fired += 1
+                raise OSError(errno.EIO, "simulated storage fault", what)
         if self.unavailable:
             if not self.observer:
                 self.eio_fired += 1
